@@ -1208,11 +1208,13 @@ class DomainMapping(CanBehaveLikeAVariable[T], ABC):
     def _evaluate__(self, sources: Optional[Dict[int, HashedValue]] = None, yield_when_false: bool = False) \
             -> Iterable[Dict[int, HashedValue]]:
         sources = sources or {}
-        self._yield_when_false_ = yield_when_false
-        self._child_._eval_parent_ = self
         if self._id_ in sources:
+            # already bound, e.g. selected after it was evaluated as a condition: passed on as it is, and the state of an
+            # evaluation of this very node that is still under way (its generator is suspended) is left alone.
             yield sources
             return
+        self._yield_when_false_ = yield_when_false
+        self._child_._eval_parent_ = self
         is_a_condition = self._is_in_condition_position_()
         child_val = self._child_._evaluate__(sources, yield_when_false=self._yield_when_false_)
         for child_v in child_val:
@@ -1226,7 +1228,7 @@ class DomainMapping(CanBehaveLikeAVariable[T], ABC):
                     self._is_false_ = False
                 else:
                     self._is_false_ = True
-                if self._yield_when_false_ or not self._is_false_:
+                if yield_when_false or not self._is_false_:
                     values[self._id_] = v
                     yield values
 
